@@ -9,6 +9,8 @@ from __future__ import annotations
 
 import random
 
+import numpy as np
+
 from .. import build, gen, monitors, oracle as O, probes
 from . import common as K
 
@@ -154,6 +156,7 @@ def run_unit(unit, ctx):
             R.add([K.V(K.exc_key("compile", e), f"python.compile raised on a valid definition ({tag}): {K.exc_text(e)}",
                        defn=defn, traceback=K.tb_text(e))])
             continue
+        kept = None
         for pi, pt in enumerate(points):
             env = orc.env(pt)
             skw = list((s, pt[s]) for s in defn["state"])
@@ -202,6 +205,13 @@ def run_unit(unit, ctx):
                 v["witness"].update(defn=defn, point=pt, cse=cse)
             R.add(vs)
             outs[(cse, pi)] = got
+            if pi == 0:
+                kept = (res, res.data.copy())   # a result the caller keeps while the model is used again
+            elif pi == len(points) - 1 and kept is not None:
+                R.stats.inc("retained_result_checks")
+                if not np.array_equal(kept[0].data, kept[1]):
+                    R.add([K.V("model:earlier-result-changed", f"a State returned by an earlier Model.model call changed when the model was called again ({tag})",
+                               defn=defn, cse=cse)])
             if not R.samples and pi == 0:
                 R.samples.append({"definition": K.brief_defn(defn), "point": pt, "cse": cse,
                                   "observed": got,
